@@ -59,6 +59,8 @@ type Step struct {
 	Queries []QueryStep `json:"queries,omitempty"`
 	// Walks (kind "walks") replaces the paging walks used by the listing oracles, then commits.
 	Walks []PageReq `json:"walks,omitempty"`
+	// ZeroHeight (kind "export_import") exports the way `export --for-zero-height` does.
+	ZeroHeight bool `json:"zero_height,omitempty"`
 }
 
 // QueryStep is one ABCI query as pure data.
@@ -361,7 +363,7 @@ func (w *World) Apply(s Step) error {
 	case "restart":
 		return w.applyRestart()
 	case "export_import":
-		return w.applyExportImport()
+		return w.applyExportImport(s.ZeroHeight)
 	case "walks":
 		w.Walks = s.Walks
 		return w.applyCommit(3)
@@ -731,7 +733,7 @@ func (w *World) applyRestart() error {
 
 // applyExportImport commits any open block, exports the genesis and continues on a fresh
 // chain initialised from it.
-func (w *World) applyExportImport() error {
+func (w *World) applyExportImport(zero bool) error {
 	// the application exports from its check state (as `panacead export` does on a stopped
 	// node, where it equals the committed state); CheckTx calls made by this harness since
 	// the last Commit would leak into the export, so a block is committed first
@@ -740,12 +742,15 @@ func (w *World) applyExportImport() error {
 			return err
 		}
 	}
-	st, err := w.C.Export()
+	st, err := w.C.ExportMode(zero)
 	if err != nil {
 		return &Violation{"C08", "export failed: " + err.Error()}
 	}
+	if zero {
+		w.Label("export for zero height")
+	}
 	if w.On("C08") {
-		if err := w.checkC08(st); err != nil {
+		if err := w.checkC08(st, zero); err != nil {
 			return err
 		}
 		// checkC08 switches the world to the imported chain itself.
@@ -761,7 +766,7 @@ func (w *World) applyExportImport() error {
 	w.C = nc
 	if w.Twin != nil {
 		// the twin exports and imports on its own: two independent InitGenesis runs
-		st2, err := w.Twin.C.Export()
+		st2, err := w.Twin.C.ExportMode(zero)
 		if err != nil {
 			return vio(w.Opt.Prop, "twin export failed: %v", err)
 		}
